@@ -67,6 +67,11 @@ var c06Pipelines = []string{
 	`numbers(8).iirCombine(x->x,(p,q,o)->o+q-p+1).merge(numbers(8).fsm((s,x)->goto((s.state+x)%3)).map(s->s.state),(p,q)->p<q).sum()+a`,
 	`numbers(8).cross([1,2],(p,q)->p*2+q).merge(numbers(8).accept(x->x%2=a%2).number((i,x)->x+i),(p,q)->p<q).sum()`,
 	`numbers(8).compact((p,q)->p=q).number((i,x)->x+i).merge(numbers(8).map(x->x*2).compact((p,q)->p=q+b*0),(p,q)->p<q).reduce((p,q)->p*2+q)`,
+	// windows and elements that escape from a stage into a parallel stage; run-time concatenations of stack-using stages
+	`numbers(20).map(x->x+a).combineN(4,w->w).map(w->slow(w[0])+w[3]*b).sum()`,
+	`numbers(20).combineN(3,w->w).accept(w->slow(w[1])>=0).map(w->w[0]*100+w[2]+a).sum()`,
+	`(numbers(10).map(x->x+a).combine3((p,q,r)->p+q+r)+numbers(10).number((i,x)->x*b+i)).map(x->slow(x)).combine((p,q)->p-q).sum()`,
+	`(numbers(9).number((i,x)->x+i*a)+numbers(9).iir(x->x,(x,o)->o+x+b)).accept(x->slow(x)>=0).number((i,x)->x-i).sum()`,
 	// helper closures bound by let, called from the closures of parallel stages
 	`let add=(p,q)->p*2+q; numbers(16).map(x->add(x,slow(x)+a)).sum()`,
 	`let add=(p,q)->p*2+q; let sq=x->add(x,x); numbers(16).map(x->sq(slow(x))+add(b,x)).combine((p,q)->add(p,q)).sum()`,
